@@ -311,3 +311,11 @@ obligation('C05-f', 'T1 T11 T8', 'a saved / reopened pool still holds its stores
            'C06-h)', floor=6,
            necessary='a pool whose stores are lost on save or reopen re-simulates (or silently '
                      'drops) the batches it held')(_C06.c06_h)
+
+
+
+@obligation('C05-g', 'T6 T11', 'seed 0 and batch index 0 are never tested by truth value in the pool code', floor=2,
+            necessary='a pool created with seed 0 would report no context and accept another seed')
+def c05_g(ctx):
+    from .base import zero_is_valid_obligation
+    zero_is_valid_obligation(ctx, ['batch_index', 'seed'])
